@@ -29,6 +29,7 @@ REQUIRED_COUNTERS = {"cases_with_insert": {"quick": 3000, "thorough": 50000},
                      "cases_with_prune_by_inserted": {"quick": 300, "thorough": 5000},
                      "cases_insert_innermost": {"quick": 300, "thorough": 5000},
                      "cycle_cases": {"quick": 50, "thorough": 500},
+                     "deep_progressing_chains": {"quick": 100, "thorough": 2000},
                      "ambiguous_both_readings": {"quick": 10, "thorough": 100}}
 SHARD_TIMEOUT = {"quick": 400, "thorough": 5400}
 EXHAUSTIVE = {"quick": False, "thorough": False}
@@ -174,6 +175,7 @@ def worker(spec):
     interp = "%d.%d" % sys.version_info[:2]
     budget = ctxwork.Budget(spec.get("budget_s", 60))
     NF = 12
+    NDEEP = 150
 
     def mk(name):
         ns = {}
@@ -185,6 +187,11 @@ def worker(spec):
     GENS = [mk("F%d" % i) for i in range(NF)]
     FR = [g.gi_frame for g in GENS]
     NAME = {id(f): "F%d" % i for i, f in enumerate(FR)}
+    # extra parked frames (no hooks registered) for very deep stacks
+    DEEPGENS = [mk("D%d" % i) for i in range(NDEEP)]
+    DEEPFR = [g.gi_frame for g in DEEPGENS]
+    for i, f in enumerate(DEEPFR):
+        NAME[id(f)] = "D%d" % i
 
     class W(object):
         """wrapper item; style decides what unwrap_stackitem returns"""
@@ -386,6 +393,19 @@ def worker(spec):
             if budget.over():
                 res.count("budget_cut")
                 break
+            if case % 500 == 7:
+                # a stack that nests >= 100 unwrap layers while making progress at every layer: an item
+                # unwraps to (frame, next item) again and again; the 100-step rule must not fire
+                depth = rng.randint(100, NDEEP)
+                item = W("tuple", [DEEPFR[depth - 1]]) if rng.random() < 0.5 else DEEPFR[depth - 1]
+                for i in range(depth - 2, -1, -1):
+                    item = W(rng.choice(("tuple", "list", "iter")), [DEEPFR[i], item])
+                ACT.clear()
+                if rng.random() < 0.5:
+                    ACT[id(FR[0])] = ("prune", [])
+                res.count("deep_progressing_chains")
+                judge(item, "deep chain of %d progressing layers" % depth)
+                continue
             pool = FR[:]
             rng.shuffle(pool)
             root = rand_item(0, pool, styles) or W("tuple", [])
